@@ -658,3 +658,10 @@ pub fn stub_evaluate_ast_null(
 ) -> Result<Value, blots_core::error::RuntimeError> {
     Ok(Value::Null)
 }
+
+/// `HashMap::insert` as a no-op, for the binding-phase harnesses of C04 only: they decide that
+/// `FunctionDef::call` never indexes its argument vector out of range while binding, not what ends
+/// up bound (the body is cut as well).  Removes hashbrown from those harnesses.
+pub fn stub_hashmap_insert<K, V, S, A: std::alloc::Allocator>(_m: &mut std::collections::HashMap<K, V, S, A>, _k: K, _v: V) -> Option<V> {
+    None
+}
